@@ -120,12 +120,22 @@ Definition co_eqb (a b : outcome * list N) : bool := outcome_eqb (fst a) (fst b)
 Definition subset {A} (eqb : A -> A -> bool) (a b : list A) : bool := forallb (fun x => existsb (eqb x) b) a.
 Definition set_eqb {A} (eqb : A -> A -> bool) (a b : list A) : bool := subset eqb a b && subset eqb b a.
 
+(* fault runs: after the failing call the `with` block still closes the gzip stream (more appends to the
+   temp file) before the handler runs, so only the target's history and the final state are compared *)
+Definition target_history (fs : afs) (p : list wstep) : list (list (option bytes)) :=
+  let t := fun l => match l with x :: _ => [x] | [] => [] end in
+  match map t (distinct_states fs p) with
+  | [] => []
+  | x :: r => x :: dedupe x r
+  end.
+
 Definition mismatch_C10 (c : case_C10) : bool :=
-  negb (list_eqb proj_eqb (distinct_states (fs0 c) (k_steps c)) (distinct_states (fs0 c) (model_prog c))
-        && co_eqb (k_final c) (model_final c)
+  negb (co_eqb (k_final c) (model_final c)
         && match k_fault c with
-           | Some _ => true            (* fault runs: only the state sequence and the final state are observed *)
-           | None => set_eqb co_eqb (k_crash c) (model_crash c) && set_eqb outcome_eqb (k_reader c) (model_reader c)
+           | Some _ => list_eqb proj_eqb (target_history (fs0 c) (k_steps c)) (target_history (fs0 c) (model_prog c))
+           | None =>
+               list_eqb proj_eqb (distinct_states (fs0 c) (k_steps c)) (distinct_states (fs0 c) (model_prog c))
+               && set_eqb co_eqb (k_crash c) (model_crash c) && set_eqb outcome_eqb (k_reader c) (model_reader c)
            end).
 
 (* ---- the oracle: old or new, never torn / empty / missing; at most a stray temp file ---- *)
@@ -135,14 +145,22 @@ Definition raw_site (s : site) : bool := match s with SRawDirect | SRawAtomic =>
 
 Definition holds_C10 (c : case_C10) : bool :=
   raw_site (k_site c) ||
-  (forallb (fun x => good (fst x) && only_tmp (snd x)) (k_crash c)
-   && forallb good (k_reader c)
-   && match k_fault c with
-      | Some _ => co_eqb (k_final c) (OOld, [])       (* failed cache write: target untouched, temp file removed *)
-      | None => co_eqb (k_final c) (ONew, [])
-      end).
+  match k_fault c with
+  | Some _ => co_eqb (k_final c) (OOld, [])       (* failed cache write: target untouched, temp file removed *)
+  | None =>
+      forallb (fun x => good (fst x) && only_tmp (snd x)) (k_crash c)
+      && forallb good (k_reader c)
+      && co_eqb (k_final c) (ONew, [])
+  end.
 
 Definition violation_C10 (c : case_C10) : bool := negb (holds_C10 c).
+
+(* precondition of C10_model_holds: the write changes the content, and the abstract contents are short enough
+   for the model reader's single big read *)
+Definition pre_C10 (c : case_C10) : bool :=
+  negb (obytes_eqb (read_name (fs0 c) 0) (Some (new_content c)))
+  && (length (new_content c) <=? big)%nat
+  && match read_name (fs0 c) 0 with Some d => (length d <=? big)%nat | None => true end.
 
 Definition mismatches_C10 (cs : list case_C10) : list N := indices_where mismatch_C10 cs.
 Definition violations_C10 (cs : list case_C10) : list N := indices_where violation_C10 cs.
